@@ -173,7 +173,7 @@ CLAIMED = {
          "decided by exploration: each gate is flipped to yes in seeded real-form scenarios that consult it - conditional gates in the scenario "
          "recorded with them in the oracle - and the real solver must not report success. A gate of the oracle that no line reads is a violation.",
     design_ref='DESIGN.md §4 C09, §13',
-    note="Partial: 13 of 40 gates and the numeric limits rest on exploration only. The gate oracle (oracles/gates_<year>.json) was proposed from the "
+    note="Partial: 10-12 of the 36-42 gates per year and the numeric limits rest on exploration only. The gate oracle (oracles/gates_<year>.json) was proposed from the "
          "tree as first built, reviewed against the input descriptions, frozen; three entries are marked conditional and one wrong entry was removed "
          "(DESIGN.md §13.6). Print Assumptions: closed under the global context.",
     technique='Rocq: C01 + gate_sound (every store) + reflective shape check of every reading line; flipped-gate exploration on the real solver for the rest',
